@@ -44,7 +44,9 @@ pub fn run(args: &[String]) {
                 "f64" => line::<f64>(kind, n, dir),
                 _ => panic!("bad type"),
             };
-            format!("spec {} {} {}\t{}", kind.name(), ty, n, s)
+            let no_avx2 = std::env::var("VERIF_MASK").ok().and_then(|m| m.parse::<u32>().ok()).map(|m| m & 4 == 0).unwrap_or(false);
+            let kname = if kind == Kind::Avx && no_avx2 { "avx-noavx2" } else { kind.name() };
+            format!("spec {} {} {}\t{}", kname, ty, n, s)
         })
         .collect();
     let stdout = std::io::stdout();
